@@ -35,6 +35,31 @@ func hasValue(m *bits.Machine, pattern string) bool {
 
 // branchOn: some If in fn branches on a condition whose vector matches pattern; returns them.
 func branchesOn(m *bits.Machine, pattern string) []*ssa.If {
+	out := branchesOn1(m, pattern)
+	// branches of the callees the machine expanded (a test moved into a helper that was handed the payload)
+	seen := map[*ssa.If]bool{}
+	for _, i := range out {
+		seen[i] = true
+	}
+	var visit func(x *bits.Machine, depth int)
+	visit = func(x *bits.Machine, depth int) {
+		for _, s := range x.Subs {
+			for _, i := range branchesOn1(s, pattern) {
+				if !seen[i] {
+					seen[i] = true
+					out = append(out, i)
+				}
+			}
+			if depth < 4 {
+				visit(s, depth+1)
+			}
+		}
+	}
+	visit(m, 0)
+	return out
+}
+
+func branchesOn1(m *bits.Machine, pattern string) []*ssa.If {
 	var out []*ssa.If
 	for _, b := range m.Fn.Blocks {
 		if len(b.Instrs) == 0 {
